@@ -287,22 +287,32 @@ def run(ctx):
         r = A.Resolver(f)
         c = A.Conds(f, r)
         sends = [(b, t) for b, t in f.calls() if (t.get("callee") or "") in ("tokio::net::UdpSocket::send", "tokio::net::UdpSocket::send_to")]
-        ctx.floor("C09.5", "send sites in %s" % name, len(sends), 2, exact=True)
+        ctx.floor("C09.5", "send sites in %s" % name, len(sends), 1)
         big = A.cmp_fact({"Gt"}, Call("len", Path("^bytes")), Konst(512))
         small = A.cmp_fact({"Le"}, Call("len", Path("^bytes")), Konst(512))
         kinds = {}
         for b, t in sends:
-            e = r.call_expr(t, b)
-            payload = A.peel_until_call(e[2][1], "index")
-            gb, _ = c.guarded(b, big)
-            gs, _ = c.guarded(b, small)
-            if gb:
-                ok = payload[0] == "call" and payload[1].endswith("::index") and A.path_str(payload[2][0]) == "^bytes" and \
-                    A.peel(payload[2][1])[0] == "agg" and A.peel(payload[2][1])[1] == "std::ops::RangeTo" and is_const(dict(A.peel(payload[2][1])[3])["end"], 512)
-                kinds["big"] = ok
-            elif gs:
-                kinds["small"] = A.path_str(e[2][1]) == "^bytes"
-            in_loop = any(b in body and not any(f.term(x)["k"] == "yield" for x in body if x == x) and False for _, body in f.loops())
+            # what is sent, per place where that value is decided (one send per branch, or one send of a value chosen before)
+            alts = []
+            rl = A.root_local(f, t["args"][1])
+            ds = [d for d in f.defs().get(rl, []) if d[2] != "partial"] if rl is not None else []
+            for d in ds:
+                alts.extend(A.value_sources(f, r, d))
+            if not alts:
+                alts = [(b, r.call_expr(t, b)[2][1])]
+            for lb, x in alts:
+                payload = A.peel_until_call(x, "index")
+                where = b if lb not in f.reachable(0) else lb
+                gb = c.guarded(where, big)[0] or c.guarded(b, big)[0]
+                gs = c.guarded(where, small)[0] or c.guarded(b, small)[0]
+                if gb:
+                    ok = payload[0] == "call" and payload[1].endswith("::index") and A.path_str(payload[2][0]) == "^bytes" and \
+                        A.peel(payload[2][1])[0] == "agg" and A.peel(payload[2][1])[1] == "std::ops::RangeTo" and is_const(dict(A.peel(payload[2][1])[3])["end"], 512)
+                    kinds["big"] = ok and kinds.get("big", True)
+                elif gs:
+                    kinds["small"] = A.path_str(x) == "^bytes" and kinds.get("small", True)
+                else:
+                    kinds["?%s" % f.loc(lb)] = A.show(x)[:60]
         ctx.check(kinds == {"big": True, "small": True}, "C09.5", name + ":cut", "> 512: &bytes[..512]; otherwise all bytes", "UDP payload selection is %s" % kinds, f.loc())
         flags = {}
         for b, i, st in f.assigns():
@@ -316,13 +326,17 @@ def run(ctx):
                     flags["big" if gb else "small" if gs else "?"] = (v[1], A.peel(v[3])[2])
         ctx.check(flags == {"big": ("BitOr", 2), "small": ("BitAnd", 253)}, "C09.5", name + ":TC", "TC (bit 1 of octet 2) set iff truncated",
                   "TC handling is %s" % flags, f.loc())
-        # the flag is written before the datagram leaves
+        # the flag is written before the datagram leaves: no path reaches a send without passing a store to the flags octet
+        stores = [bb for bb, i, st in f.assigns() if st["dst"].get("p") and any(isinstance(x, dict) and ("index" in x or "cindex" in x) for x in st["dst"]["p"])]
         for b, t in sends:
-            stores = [bb for bb, i, st in f.assigns() if st["dst"].get("p") and any(isinstance(x, dict) and "index" in x for x in st["dst"]["p"])]
-            ctx.check(any(f.dominates(sb, b) for sb in stores), "C09.5", "%s:flag-before-send@%d" % (name, sends.index((b, t))), "TC updated before sending",
+            ctx.check(bool(stores) and b not in f.reachable(0, removed_blocks=stores), "C09.5", "%s:flag-before-send@%d" % (name, sends.index((b, t))), "TC updated before sending",
                       "datagram sent before the TC flag is updated", f.loc(b))
-        yl = [b for b in f.live_blocks() if f.term(b)["k"] == "yield"]
-        ctx.check(len(yl) == 2, "C09.5", name + ":one-send-per-path", "two await points, one per branch", "%d await points" % len(yl), f.loc())
+        # one datagram per call: after a send no other send is reached, and Ok(()) is not returned without one
+        again = [(b1, b2) for b1, t1 in sends for b2, t2 in sends if t1.get("target") is not None and b2 in f.reachable(t1["target"])]
+        oks = [b for b, e in A.return_exprs(f, r) if A.peel(e)[0] == "agg" and A.peel(e)[2] == "Ok"]
+        none = [b for b in oks if b in f.reachable(0, removed_blocks=[sb for sb, _ in sends])]
+        ctx.check(not again and not none and bool(oks), "C09.5", name + ":one-send-per-path", "exactly one datagram on every successful path",
+                  "sends after a send: %s; Ok without a send: %s" % ([f.loc(x[1]) for x in again], [f.loc(x) for x in none]), f.loc())
 
     # ---------------------------------------------------------------- C09.6
     st_ = prog.body_of(NET + "send_tcp_bytes")
